@@ -2951,8 +2951,10 @@ def _run_wide(ctx, fmt):
                 # in the quick tier, small ones: a time-out costs 4 x its budget of CPU (first pass + confirmation at
                 # 3x) and the budget follows the length - 32 KB bound that at ~4 min per shard on a tree that hangs
                 pool.append(s)
-        if n <= 5000:
-            mutations((4, 8, 4, 2)[WIDE_N.index(n)] * (1 if quick else 6), cap * 0.8)
+        if 1200 <= n <= 5000:
+            # (the two smallest counts are run unmodified before anything else: they are cheap and must not depend on
+            # how much a loaded machine gets done within the wall-clock cap)
+            mutations((0, 10, 4, 2)[WIDE_N.index(n)] * (1 if quick else 6), cap * 0.8)
     mutations(60 if quick else 600, cap)
     if _over_budget(ctx, cap):
         ctx.count('wide_budget_cut:' + fmt)
